@@ -213,7 +213,8 @@ def run_binding():
             ("walk-probe", lambda e: e["ev"] == "probe", lambda e: e["v"].__setitem__(0, (e["v"][0] + 1) % 65536), "index-differs"),
             ("walk-used", lambda e: e["ev"] == "push" and e.get("obs") and e.get("used", 0) > 0,
              lambda e: e.__setitem__("used", e["used"] + 4), "heap-bytes-differ-from-documented-cost"),
-            ("walk-iter", lambda e: e["ev"] == "iter" and len(e["vs"]) > 1, lambda e: e.__setitem__("vs", e["vs"][1:]), "iteration-differs"),
+            ("walk-iter", lambda e: e["ev"] == "iter" and len(e["vs"]) > 1,
+             lambda e: e["vs"][0].__setitem__(0, (e["vs"][0][0] + 1) % 65536), "iteration-differs"),
         ]:
             bad = json.loads(json.dumps(events))
             hit = [e for e in bad if pick(e)]
